@@ -269,6 +269,7 @@ def run(chk, repo, tier):
     p1_p2(chk, repo, tier)
     p4(chk, repo, tier)
     p3(chk, repo, tier)
+    p7(chk, repo, tier)
 
 
 # --------------------------------------------------------------------------- P3
@@ -337,3 +338,99 @@ def p3(chk, repo, tier):
                         chk.violation("P3", key, wh, "declared with a constant Jacobian (val=) but %s is not affine in '%s' with input-independent coefficients under %s: the framework keeps using the constant" % (evm, w, sig_txt(sig)))
 
 
+
+
+# --------------------------------------------------------------------------- P7
+def p7(chk, repo, tier, only=None, rule="P7"):
+    """Derivative identity for scalar / element-wise components (E5)."""
+    from ..model import component_model
+    from ..symx import EYE, SymX, equal, has_array, sdiff
+
+    chk.rule(rule, "stored partial == d(output)/d(input) as an identity of the expressions extracted from compute and compute_partials (sympy normal form; reductions are an uninterpreted linear functional; surface loops instantiated for generic surfaces)", min_decided=30 if only is None else 5)
+    n_und = 0
+    for c in repo.components(("explicit",)):
+        if c.name in POSTPROCESSING or c.name in NEVER_INSTANTIATED:
+            continue
+        if only is not None and c.name not in only:
+            continue
+        if "compute" not in c.methods or "compute_partials" not in c.methods:
+            continue
+        m = component_model(repo, c, domains=(SymX,))
+        for rc in m.runs.get("compute", []):
+            if rc.final is None:
+                continue
+            O = {}
+            for oid, ob in rc.final.heap.items():
+                if isinstance(oid, tuple) and oid[0] == "out":
+                    O[oid[1]] = ob.dom.get("SYMX")
+            if not any(v is not None for v in O.values()):
+                continue
+            tc = rc.domains["SYMX"].table
+            for rl in m.runs.get("compute_partials", []):
+                if rl.final is None or not rl.compatible(rc.sigma):
+                    continue
+                tl = rl.domains["SYMX"].table
+                tc.arrays |= tl.arrays
+                sig = merged(rc.sigma, rl.sigma)
+                for oid, ob in rl.final.heap.items():
+                    if not (isinstance(oid, tuple) and oid[0] == "partials"):
+                        continue
+                    o, w = oid[1], oid[2]
+                    P = ob.dom.get("SYMX")
+                    Oe = O.get(o)
+                    key = "%s: d(%s)/d(%s) %s" % (c.name, norm_name(o), norm_name(w), sig_txt(sig))
+                    st_ev = [e for e in rl.events if e.kind == "store" and e.cell == oid]
+                    wh = where(c, st_ev[-1].lineno) if st_ev else c.where
+                    if P is None or Oe is None or ob.dom.get("SYMX_partial") or ob.dom.get("SYMX_idx"):
+                        n_und += 1
+                        continue
+                    # the symbol of the wrt input (all loop passes)
+                    cands = [s for nm, s in tc.syms.items() if nm.split("@")[0] == w.replace("[0]", "[i]") or nm == w]
+                    tags = {nm.partition("@")[2] for nm, s in tc.syms.items() if s in cands}
+                    if not cands:
+                        # output does not mention the input at all
+                        D = 0
+                        r = equal(P, D, tc)
+                        cands = []
+                    ok_all = True
+                    und = False
+                    detail = ""
+                    if not cands:
+                        if r is True:
+                            chk.ok(rule, key, wh, "partial is identically zero and the output does not depend on the input", algebraic=True)
+                        elif r is False:
+                            chk.violation(rule, key, wh, "stored partial %s but %s does not depend on %s" % (P, o, w), algebraic=True)
+                        else:
+                            chk.undecided(rule, key, wh, "", algebraic=True)
+                        continue
+                    # which pass does this partial belong to?
+                    wtag = ""
+                    for l in (st_ev[-1].loops if st_ev else ()):
+                        if l.kind == "cfglist":
+                            wtag = {"first": "0", "generic": "1", "generic2": "2"}.get(l.tag, "1")
+                    sym = None
+                    for nm, s in tc.syms.items():
+                        if s in cands and (nm.partition("@")[2] == wtag or len(cands) == 1):
+                            sym = s
+                    if sym is None:
+                        n_und += 1
+                        continue
+                    arr = sym in tc.arrays
+                    D = sdiff(Oe, sym, tc, unsig=arr)
+                    r = equal(P, D, tc)
+                    if r is not True and arr:
+                        r2 = equal(P, D * EYE, tc)
+                        if r2 is True:
+                            r = True
+                    if r is True:
+                        chk.ok(rule, key, wh, "identity holds", algebraic=True)
+                    elif r is False:
+                        chk.violation(rule, key, wh, "stored partial is %s but d(%s)/d(%s) of the value computed by compute() is %s (residual not identically zero)" % (sp_short(P), o, w, sp_short(D)), algebraic=True)
+                    else:
+                        chk.undecided(rule, key, wh, "normal forms not comparable: stored %s vs derivative %s" % (sp_short(P), sp_short(D)), algebraic=True)
+    chk.note("%s: %d (output, input) blocks outside the scalar / element-wise fragment were not extracted (tensor Jacobians)" % (rule, n_und))
+
+
+def sp_short(e):
+    s = str(e)
+    return s if len(s) < 160 else s[:157] + "..."
